@@ -11,6 +11,8 @@ import (
 	"encoding/json"
 	"fmt"
 	"math"
+	"os"
+	"os/exec"
 	"reflect"
 	"regexp"
 	"sort"
@@ -472,4 +474,22 @@ func zzHoleBytes(path, positions, name string) string {
 func zzGlobalsMark() {}
 func zzGlobalsUnchanged() bool {
 	return len(emptyList) == 1 && emptyList[0] == emptyEntity && len(fullList) == 1 && fullList[0] == true
+}
+
+// zzFreshOutcome: the outcome of Parse(path, config) made first in a fresh
+// process. The engine evaluates it in a clone of the initial state; natively
+// the test binary re-executes itself.
+func zzFreshOutcome(path, cfgName string) string {
+	cmd := exec.Command(os.Args[0], "-test.run", "^TestZZFreshOutcome$")
+	cmd.Env = append(os.Environ(), "ZZ_FRESH_PATH="+path, "ZZ_FRESH_CFG="+cfgName)
+	out, _ := cmd.CombinedOutput()
+	for _, l := range strings.Split(string(out), "\n") {
+		if strings.HasPrefix(l, "ZZOUT:") {
+			s, err := strconv.Unquote(l[6:])
+			if err == nil {
+				return s
+			}
+		}
+	}
+	return "fresh process failed: " + string(out)
 }
